@@ -3,6 +3,7 @@
 //
 //	ops (grammar in lean/Driver/C37.lean):
 //	  reset H <hdrs> | reset E <via> <prov> <tid> <sid> <flags> <ts> <hdrs> | set <k> <v> | get <k> | keys
+//	  and the fetched-batch classes of batch.go: reset B … | reset R … | bset/bget/bkeys <i> … | binj <i> … | bext
 //	out: H=<hdrs> K=<Keys()> G=<Get(key of header i)…> R=<Get(k)|.> [X=<extracted traceparent> T=<extracted tracestate>]
 package main
 
@@ -200,6 +201,7 @@ func generate(a hx.Args) {
 	for i := 0; i < a.N(40, 600); i++ {
 		genE2E(r, "wire")
 	}
+	generateBatches(r, a)
 	if a.Tier == "thorough" { // small scope: every header list of length <= 3 over 2 keys x 3 values, every op on 3 keys
 		ks := []string{"61", "62"}
 		vs := []string{"-", ".", "78"}
@@ -317,6 +319,7 @@ type world struct {
 	ids     *fixedIDs
 	cap     *capture
 	lanes   map[string]*lane
+	br      *bridgeWorld
 }
 
 var parentSpan = trace.SpanID{0x00, 0xf0, 0x67, 0xaa, 0x0b, 0xa9, 0x02, 0xb7}
@@ -336,14 +339,18 @@ func newWorld() *world {
 	return w
 }
 
-func (w *world) wire(l *lane) {
+func (w *world) ensureCluster() {
 	if w.cluster == nil {
-		c, err := kfake.NewCluster(kfake.NumBrokers(1), kfake.SeedTopics(1, "tn", "ts"))
+		c, err := kfake.NewCluster(kfake.NumBrokers(1), kfake.SeedTopics(1, "tn", "ts", "bin", "bout"))
 		if err != nil {
 			panic(err)
 		}
 		w.cluster = c
 	}
+}
+
+func (w *world) wire(l *lane) {
+	w.ensureCluster()
 	if l.prod == nil {
 		var err error
 		l.prod, err = kgo.NewClient(kgo.SeedBrokers(w.cluster.ListenAddrs()...), kgo.WithHooks(l.ptr), kgo.ProducerLinger(0))
@@ -483,7 +490,11 @@ func hdrStats(hs []kgo.RecordHeader) {
 func run() {
 	w := newWorld()
 	rec := &kgo.Record{}
+	bs := &batchState{}
 	hx.RunLines(20*time.Second, func(t []string) string {
+		if out, ok := w.batchOp(bs, t); ok {
+			return out
+		}
 		switch {
 		case t[0] == "reset" && len(t) == 3 && t[1] == "H":
 			rec = &kgo.Record{Headers: parseHdrs(t[2])}
